@@ -16,12 +16,40 @@ import (
 func init() { props["C04"] = runC04 }
 
 // lexReal tokenizes with a fresh tokenizer and renders the result in the driver's `lex` format.
+// lexReal tokenizes with, in turn, a fresh tokenizer, one long-lived instance that is reused call after call (now and
+// then after a tiny multi-line input, so that a stale position cache would show) and a pooled instance taken after
+// other holders used the pool: the result must not depend on which (C08), so every comparison made on the answer
+// also covers reuse.
+var (
+	lexRealCalls int
+	lexSharedTk  *tokenizer.Tokenizer
+)
+
 func lexReal(input []byte) (canon string, toks []models.TokenWithSpan, comments []models.Comment, err error) {
-	tk, nerr := tokenizer.New()
+	lexRealCalls++
+	var tk *tokenizer.Tokenizer
+	var nerr error
+	switch lexRealCalls % 3 {
+	case 1:
+		if lexSharedTk == nil {
+			lexSharedTk, nerr = tokenizer.New()
+		}
+		tk = lexSharedTk
+		if nerr == nil && lexRealCalls%2 == 0 {
+			_, _ = tk.Tokenize([]byte([]string{"\n;", "\t\na", "a\n\n", "\n\n'x"}[(lexRealCalls/6)%4]))
+		}
+	case 2:
+		pollutePools(lexRealCalls / 3)
+		tk = tokenizer.GetTokenizer()
+		defer tokenizer.PutTokenizer(tk)
+	default:
+		tk, nerr = tokenizer.New()
+	}
 	if nerr != nil {
 		return "NEW-FAILED", nil, nil, nerr
 	}
 	toks, err = tk.Tokenize(input)
+	toks = append([]models.TokenWithSpan{}, toks...)
 	if err != nil {
 		code, line, col := "?", -9, -9
 		if e, ok := err.(*goerrors.Error); ok {
